@@ -2,12 +2,11 @@ package xz
 
 import (
 	"bytes"
-	"errors"
 	"io"
+
+	"github.com/ulikunitz/xz/lzma"
 )
 
-var vErrSrc = errors.New("verif: source failure")
-var vErrSink = errors.New("verif: sink failure")
 
 func vSmallCfg() WriterConfig {
 	return WriterConfig{DictCap: 4096, BufSize: 4096}
@@ -37,4 +36,213 @@ func VH_E2E_xz_roundtrip() {
 	out, err := io.ReadAll(r)
 	vAssert(err == nil, "reads without error")
 	vAssert(bytes.Equal(out, data), "round trip")
+}
+
+var vText = []byte("abcabcabcXabcabc")
+
+// vStreams: which stream configuration a harness uses.
+func vStream(kind int) (z []byte, data []byte) {
+	data = vText
+	cfg := vSmallCfg()
+	switch kind {
+	case 0: // one block, CRC64
+	case 1: // several blocks
+		cfg.BlockSize = 6
+	case 2: // no check
+		cfg.NoCheckSum = true
+	case 3: // CRC32, binary tree matcher
+		cfg.CheckSum = CRC32
+		cfg.Matcher = lzma.BinaryTree
+	case 4: // SHA256
+		cfg.CheckSum = SHA256
+	case 5: // empty content
+		data = nil
+	}
+	return vMakeXZ(cfg, data), data
+}
+
+func vKinds() int {
+	if vThorough() {
+		return 6
+	}
+	return 3
+}
+
+// E2E-cut (C05): every proper prefix of a valid file ends in an error that
+// is not a clean end of stream; delivered bytes are a prefix of the content.
+func VH_CUT_xz() {
+	kind := vConcretize(int(vNondetU8("kind")) % vKinds())
+	z, data := vStream(kind)
+	frag := vConcretize(int(vNondetU8("frag")) % 3)
+	cut := vConcretize(int(vNondetU16("cut")) % len(z))
+	src := &vSrc{data: z, end: cut, frag: frag}
+	r, err := NewReader(src)
+	if err != nil {
+		vAssert(err != io.EOF, "constructor error is not io.EOF")
+		return
+	}
+	out, err := vReadAll(r, 5)
+	vAssert(err != nil && err != io.EOF, "truncated file is not a clean end of stream")
+	vAssert(vIsPrefix(out, data), "delivered bytes are a prefix of the content")
+}
+
+// IO2 (C09): a failing source surfaces as that error.
+func VH_IO2_xz() {
+	kind := vConcretize(int(vNondetU8("kind")) % vKinds())
+	z, data := vStream(kind)
+	frag := vConcretize(int(vNondetU8("frag")) % 3)
+	single := vNondetBool("single")
+	at := vConcretize(int(vNondetU16("at")) % (len(z) + 1))
+	src := &vSrc{data: z, end: at, frag: frag, failErr: vErrSrc}
+	r, err := ReaderConfig{SingleStream: single}.NewReader(src)
+	if err != nil {
+		vAssert(err == vErrSrc, "constructor returns the source's error")
+		return
+	}
+	out, err := vReadAll(r, 7)
+	vAssert(err != io.EOF, "failing source never gives a clean end")
+	vAssert(err == vErrSrc, "Read returns the source's error")
+	vAssert(vIsPrefix(out, data), "delivered bytes are a prefix of the content")
+}
+
+// IO1 (C09): sink failures are never masked and never cause a panic.
+func VH_IO1_xz() {
+	kind := vConcretize(int(vNondetU8("kind")) % 3)
+	cfg := vSmallCfg()
+	switch kind {
+	case 1:
+		cfg.BlockSize = 2
+	case 2:
+		cfg.NoCheckSum = true
+	}
+	sink := &vSink{failFrom: -1}
+	sink.failFrom = vConcretize(int(vNondetU8("failAt"))%16) - 1
+	sink.once = vNondetBool("once")
+	sink.partial = vConcretize(int(vNondetU8("partial")) % 3)
+	anyErr := false
+	w, err := cfg.NewWriter(sink)
+	if err != nil {
+		anyErr = true
+	} else {
+		if _, err = w.Write([]byte("abc")); err != nil {
+			anyErr = true
+		}
+		if _, err = w.Write([]byte("de")); err != nil {
+			anyErr = true
+		}
+		if err = w.Close(); err != nil {
+			anyErr = true
+		}
+		err2 := w.Close()
+		vAssert(err2 != nil, "second Close fails")
+	}
+	if sink.failed {
+		vAssert(anyErr, "a failing sink surfaces as an error from some call")
+	} else {
+		vAssert(!anyErr, "no error without a sink failure")
+		r, err := NewReader(&vSrc{data: sink.buf, end: len(sink.buf)})
+		vAssert(err == nil, "output opens")
+		out, err := vReadAll(r, 16)
+		vAssert(err == io.EOF && string(out) == "abcde", "success means a complete valid stream")
+	}
+}
+
+// C13: output independent of read sizes and source fragmentation; EOF sticky.
+func VH_FRAG_xz() {
+	kind := vConcretize(int(vNondetU8("kind")) % vKinds())
+	z, data := vStream(kind)
+	frag := vConcretize(int(vNondetU8("frag")) % 4)
+	r, err := NewReader(&vSrc{data: z, end: len(z), frag: frag})
+	vAssert(err == nil, "valid stream opens under any fragmentation")
+	nsym := 3
+	if vThorough() {
+		nsym = 6
+	}
+	out, err := vReadSched(r, nsym)
+	vAssert(err == io.EOF, "clean end of stream")
+	vAssert(bytes.Equal(out, data), "same bytes for every read schedule and fragmentation")
+	for i := 0; i < 3; i++ {
+		p := make([]byte, 1+i)
+		n, err := r.Read(p)
+		vAssert(n == 0 && err == io.EOF, "EOF is sticky")
+	}
+}
+
+// C12: concatenated streams and padding.
+func VH_MS_xz() {
+	cfgA := vSmallCfg()
+	cfgB := vSmallCfg()
+	cfgB.NoCheckSum = true
+	a := vMakeXZ(cfgA, []byte("abc"))
+	b := vMakeXZ(cfgB, []byte("de"))
+	e := vMakeXZ(cfgA, nil)
+	maxPad := 5
+	if vThorough() {
+		maxPad = 16
+	}
+	shape := vConcretize(int(vNondetU8("shape")) % 4)
+	p0 := 0
+	if shape == 3 {
+		p0 = 1 + vConcretize(int(vNondetU8("leadingPad"))%8)
+	}
+	p1 := vConcretize(int(vNondetU8("pad1")) % (maxPad + 1))
+	p2 := vConcretize(int(vNondetU8("pad2")) % (maxPad + 1))
+	single := vNondetBool("single")
+	var in, want []byte
+	in = append(in, make([]byte, p0)...)
+	in = append(in, a...)
+	want = append(want, "abc"...)
+	in = append(in, make([]byte, p1)...)
+	second := true
+	switch shape {
+	case 0, 3:
+		in = append(in, b...)
+		want = append(want, "de"...)
+	case 1:
+		in = append(in, e...)
+		in = append(in, b...)
+		want = append(want, "de"...)
+	case 2:
+		second = false
+	}
+	in = append(in, make([]byte, p2)...)
+	// optionally one non-zero byte inside the padding
+	garbage := vNondetBool("garbage")
+	if garbage {
+		vAssume(p1+p2 > 0)
+		pos := vConcretize(int(vNondetU8("gpos")) % (p1 + p2))
+		g := vNondetU8("g") | 1
+		if pos < p1 {
+			in[p0+len(a)+pos] = g
+		} else {
+			in[len(in)-p2+(pos-p1)] = g
+		}
+	}
+	r, err := ReaderConfig{SingleStream: single}.NewReader(&vSrc{data: in, end: len(in)})
+	if p0 > 0 {
+		vAssert(err != nil, "padding before the first stream is an error")
+		return
+	}
+	vAssert(err == nil, "first stream opens")
+	out, err := vReadAll(r, 4)
+	if single {
+		vAssert(string(out) == "abc", "SingleStream yields exactly the first stream")
+		if len(in) > len(a) {
+			vAssert(err != io.EOF, "SingleStream: anything after the stream is an error")
+		} else {
+			vAssert(err == io.EOF, "SingleStream: clean end when nothing follows")
+		}
+		return
+	}
+	ok := p1%4 == 0 && p2%4 == 0 && !garbage
+	if !second {
+		ok = (p1+p2)%4 == 0 && !garbage
+	}
+	if ok {
+		vAssert(err == io.EOF, "well-formed chain ends cleanly")
+		vAssert(bytes.Equal(out, want), "chain decodes to the concatenation")
+	} else {
+		vAssert(err != io.EOF, "bad padding or trailing garbage is an error")
+		vAssert(vIsPrefix(out, want), "what was delivered is a prefix of the concatenation")
+	}
 }
